@@ -62,6 +62,15 @@ def gen_case(rng, i, tier):
                 v = rng.choice(ref); places.add("node")
             elif k < 0.4:
                 v = rng.choice([lo, hi]); places.add("end")
+            elif k < 0.47:
+                # barely outside the range: the neighbouring floating-point number of an end, or an end moved by a few
+                # parts in 10**7 / 10**9 - outside is outside, however close
+                import math
+
+                end, sgn = (lo, -1) if rng.random() < 0.5 else (hi, 1)
+                how = rng.choice(["ulp", "1e-7", "1e-9"])
+                v = math.nextafter(end, sgn * math.inf) if how == "ulp" else end + sgn * abs(end if end else 1.0) * float(how)
+                places.add("barely-outside")
             elif k < 0.6:
                 v = (lo - rng.choice([0.25, 1, 3])) if rng.random() < 0.5 else (hi + rng.choice([0.25, 2])); places.add("outside")
                 if method == "log" and v <= 0:
